@@ -61,6 +61,12 @@ def _source(template):
         from ZODB.serialize import referencesf
         g.s.pack(env.clock.now - 3.5, referencesf)
         return env, g.s, GR.model_from_storage(g.s)
+    if template.startswith('M'):
+        # a MappingStorage as source (the property ranges over all source / destination kinds)
+        env, s, h = T.build_mapping('T' + template[1:])
+        # (the model is what the source iterates - a mapping keeps one record per object and transaction; that its
+        # iteration is right is C04's subject)
+        return env, s, GR.model_from_storage(s)
     if template == 'T12':
         # two undos of one object in ONE transaction (two records of the same oid), a later change, and its undo
         import base64
@@ -97,13 +103,21 @@ def h_copy(start: bytes, stop: bytes, use_start: bool, use_stop: bool, template:
     assume(len(start) == 8 and len(stop) == 8)
     with untraced():
         env, s, m = _source(template)
-        s.close()
+        s_src = s
+        if not template.startswith('M'):
+            s.close()
         d = F.FileStorage('/db/Dest.fs') if dest == 'file' else env.mappingstorage()
         from zverif.harness.c04 import SymTimeStamp
         real_ts = F.TimeStamp
         F.TimeStamp = SymTimeStamp          # FileIterator's scan-direction heuristic on raw values (see C04)
     try:
-        it = F.FileIterator(SRC, start if use_start else None, stop if use_stop else None)
+        if template.startswith('M'):
+            class _Src:
+                def iterator(self_):
+                    return s_src.iterator(start if use_start else None, stop if use_stop else None)
+            it = _Src()
+        else:
+            it = F.FileIterator(SRC, start if use_start else None, stop if use_stop else None)
     finally:
         F.TimeStamp = real_ts
     try:
@@ -389,9 +403,9 @@ HARNESSES = [
                   'TransactionRecordIterator'],
             quick=dict(timeout=170, shards=shards(template=['T4', 'T5'], dest=['file'], use_start=[True], use_stop=[False])
                        + shards(template=['T4'], dest=['file'], use_start=[False], use_stop=[True])
-                       + shards(template=['T1', 'T2', 'T6', 'PACKED', 'T12'], dest=['file'], use_start=[False], use_stop=[False])
+                       + shards(template=['T1', 'T2', 'T6', 'PACKED', 'T12', 'M1', 'M2'], dest=['file'], use_start=[False], use_stop=[False])
                        + shards(template=['T1', 'T3'], dest=['mapping'], use_start=[False], use_stop=[False])),
-            thorough=dict(timeout=900, shards=shards(template=_SRC + ['PACKED', 'T12'], dest=['file'], use_start=[True, False], use_stop=[True, False])
+            thorough=dict(timeout=900, shards=shards(template=_SRC + ['PACKED', 'T12', 'M1', 'M2', 'M3'], dest=['file'], use_start=[True, False], use_stop=[True, False])
                           + shards(template=['T1', 'T3'], dest=['mapping'], use_start=[True, False], use_stop=[False]))),
     Harness('blob_copy', h_blob_copy,
             decides='copyTransactionsFrom between blob-aware storages reproduces every transaction and record and, for every blob '
